@@ -4,6 +4,7 @@
 -/
 import RdestModel.Wire.Frame
 import RdestModel.Lemmas.Bitfield
+set_option linter.unusedSimpArgs false
 namespace Rdest.Props.C07
 open Rdest Rdest.Gen Rdest.Wire
 
@@ -58,27 +59,27 @@ theorem T2_roundtrip (m : Msg) (rest : Bytes) (hwf : m.WF) (hfit : Fits m) :
     parseImpl (encode m ++ rest) = .frame m (encode m).length := by
   cases m with
   | keepAlive => simp [encode, parse_be32, parseBody]
-  | choke => simp [encode, parse_be32, parseBody, u8]
-  | unchoke => simp [encode, parse_be32, parseBody, u8]
-  | interested => simp [encode, parse_be32, parseBody, u8]
-  | notInterested => simp [encode, parse_be32, parseBody, u8]
+  | choke => simp [encode, parse_be32, parseBody, parseById, parseFixed, parseSized, parseVar, parseHandshake, u8]
+  | unchoke => simp [encode, parse_be32, parseBody, parseById, parseFixed, parseSized, parseVar, parseHandshake, u8]
+  | interested => simp [encode, parse_be32, parseBody, parseById, parseFixed, parseSized, parseVar, parseHandshake, u8]
+  | notInterested => simp [encode, parse_be32, parseBody, parseById, parseFixed, parseSized, parseVar, parseHandshake, u8]
   | haveP i =>
     simp only [Msg.WF] at hwf
-    simp +arith [encode, parse_be32, parseBody, u8, u32Head_be32 i _ hwf]
+    simp +arith [encode, parse_be32, parseBody, parseById, parseFixed, parseSized, parseVar, parseHandshake, u8, u32Head_be32 i _ hwf]
   | request i b l =>
     simp only [Msg.WF] at hwf
     obtain ⟨h1, h2, h3⟩ := hwf
-    simp +arith [encode, parse_be32, parseBody, u8, u32Head_be32 _ _ h1, u32Head_be32 _ _ h2, u32Head_be32 _ _ h3]
+    simp +arith [encode, parse_be32, parseBody, parseById, parseFixed, parseSized, parseVar, parseHandshake, u8, u32Head_be32 _ _ h1, u32Head_be32 _ _ h2, u32Head_be32 _ _ h3]
   | cancel i b l =>
     simp only [Msg.WF] at hwf
     obtain ⟨h1, h2, h3⟩ := hwf
-    simp +arith [encode, parse_be32, parseBody, u8, u32Head_be32 _ _ h1, u32Head_be32 _ _ h2, u32Head_be32 _ _ h3]
+    simp +arith [encode, parse_be32, parseBody, parseById, parseFixed, parseSized, parseVar, parseHandshake, u8, u32Head_be32 _ _ h1, u32Head_be32 _ _ h2, u32Head_be32 _ _ h3]
   | bitfield bs =>
     simp only [Fits, MAX_FRAME_SIZE_val] at hfit
     have hL : 1 + bs.length < 4294967296 := by omega
     rw [show encode (.bitfield bs) ++ rest = be32 (1 + bs.length) ++ (u8 5 :: (bs ++ rest)) by simp [encode]]
     rw [parse_be32 _ hL]
-    simp [parseBody, u8, encode]
+    simp [parseBody, parseById, parseFixed, parseSized, parseVar, parseHandshake, u8, encode]
     rw [if_neg (by omega), if_neg (by omega)]
     congr 1; omega
   | piece i b blk =>
@@ -88,13 +89,13 @@ theorem T2_roundtrip (m : Msg) (rest : Bytes) (hwf : m.WF) (hfit : Fits m) :
     have hL : 1 + 4 + 4 + blk.length < 4294967296 := by omega
     rw [show encode (.piece i b blk) ++ rest = be32 (1 + 4 + 4 + blk.length) ++ (u8 7 :: (be32 i ++ (be32 b ++ (blk ++ rest)))) by simp [encode]]
     rw [parse_be32 _ hL]
-    simp [parseBody, u8, encode, u32Head_be32 _ _ h1, u32Head_be32 _ _ h2]
+    simp [parseBody, parseById, parseFixed, parseSized, parseVar, parseHandshake, u8, encode, u32Head_be32 _ _ h1, u32Head_be32 _ _ h2]
     rw [if_neg (by omega), if_neg (by omega), if_neg (by omega)]
     congr 1; omega
   | handshake h p =>
     simp only [Msg.WF] at hwf
     obtain ⟨h1, h2⟩ := hwf
-    simp +arith [encode, parseImpl, parseBody, fromBe32, u8, h1, h2]
+    simp +arith [encode, parseImpl, parseBody, parseHandshake, fromBe32, u8, h1, h2]
 
 
 /-! ### T4: bitfields, both directions, every piece count -/
